@@ -193,6 +193,18 @@ func fmSweep() []func(*FMParams) {
 
 func genFM(r *lib.Rand, h *History, i int) {
 	p := FMParams{PCF: Coin{1, sp("5000")}, MaxCat: 2, Tax: sp("400000000000000000")}
+	if j := i - len(fmSweep()); j >= 0 && j < 4 { // boundary x repetition: tax rate at its valid extremes, fee 0 / 1, four pool creations
+		eps, almost := "1", new(big.Int).Sub(p18, big.NewInt(1)).String()
+		[]func(){func() { p.Tax = sp(eps) }, func() { p.Tax = sp(almost) }, func() { p.Tax = sp(almost); p.PCF.A = sp("0") },
+			func() { p.Tax = sp(eps); p.PCF.A = sp("1"); p.MaxCat = 1 }}[j]()
+		h.FM = &p
+		h.Via = sweepVia(j)
+		amt := func(lo, hi int64) string { return big.NewInt(r.Range(lo, hi)).String() }
+		h.Steps = []Step{{"create_pool", []string{"1", amt(100000, 1000000), amt(1, 1000)}}, {"create_pool", []string{"2", amt(100000, 1000000), amt(1, 1000)}},
+			{"create_pool", []string{"1", amt(100000, 1000000), amt(1, 1000)}}, {"stake", []string{amt(1, 1000000)}}, {"blocks", []string{"3"}}, {"harvest", nil},
+			{"create_pool", []string{"1", amt(100000, 1000000), amt(1, 1000)}}, {"unstake", []string{amt(1, 1000)}}, {"blocks", []string{"2"}}}
+		return
+	}
 	if sw := fmSweep(); i < len(sw) {
 		sw[i](&p)
 		h.FM = &p
